@@ -222,7 +222,36 @@ def c10_text(t, dump, tier):
             outs.append(out)
     if not outs:
         return res, stats
-    # idempotence: format(format(x)) == format(x), second pass on the real parse of the first result, in the same engine process state
+    # idempotence inside ONE process: format(x) and then format(format(x)) in the same machine (package-level state survives
+    # between the two calls, as it does in an editor host that uses the exported library function)
+    try:
+        def once(c):
+            M = make_machine(c)
+            snap = Snapshot(prog, dump).load()
+            install_parse_stubs(M, snap, None)
+            return M.call(PARSER + '.FormatPacketDsl', [go_str(t.text)])
+        _, p0 = explore([], once, 4)
+        out0 = [to_pystr(v[0]) for (k, v), pc in p0 if k == 'ok' and v[1] is None]
+        if out0:
+            d0 = symgo.native_dump([out0[0]])[0]
+            if not d0.get('syntax_errors') and not d0.get('panic'):
+                def twice(c):
+                    M = make_machine(c)
+                    snap = Snapshot(prog, dump).load()
+                    install_parse_stubs(M, snap, None)
+                    r1 = M.call(PARSER + '.FormatPacketDsl', [go_str(t.text)])
+                    snap2 = Snapshot(prog, d0).load()
+                    install_parse_stubs(M, snap2, None)
+                    r2 = M.call(PARSER + '.FormatPacketDsl', [go_str(out0[0])])
+                    return to_pystr(r1[0]), to_pystr(r2[0]) if isinstance(r2[0], str) else r2[0]
+                _, p2 = explore([], twice, 4)
+                for (k, v), pc in p2:
+                    stats['paths'] += 1
+                    if k == 'ok' and v[1] != v[0]:
+                        res.append(BFinding('C10', 'format', t.tag, 'not-idempotent:same-process', 'a second format call in the same process changes the already formatted text',
+                                            {'text': t.text, 'once': v[0][:400], 'twice': str(v[1])[:400]}))
+    except Unsupported as u:
+        stats['inconclusive'].append('same-process idempotence: %s' % str(u)[:150])
     nat = symgo.native_dump(outs)
     for o, d in zip(outs, nat):
         if d.get('syntax_errors') or d.get('panic'):
